@@ -303,6 +303,12 @@ func externals() map[string]ExtFn {
 		if !strings.HasPrefix(pre, lead) {
 			return false
 		}
+		// a synthesised identifier starts with an upper-case letter
+		if lead == "" && len(s.P) > 0 && s.P[0].Hole != nil && s.P[0].Hole.A.Kind == "Ident" && len(s.P[0].Hole.Tr) == 0 && pre != "" {
+			if r := rune(pre[0]); r < 'A' || r > 'Z' {
+				return false
+			}
+		}
 		return m.Decide("hasprefix:"+strKey(s)+":"+pre, 2, "prefix of a symbolic string") == 1
 	}
 	e["strings.HasSuffix"] = func(m *Machine, a []Value) Value {
@@ -342,7 +348,18 @@ func externals() map[string]ExtFn {
 			}
 			return s
 		}
-		panic(m.undecided("TrimPrefix reaching into the symbolic part of a string"))
+		if !strings.HasPrefix(pre, lead) {
+			return s
+		}
+		if lead == "" && len(s.P) > 0 && s.P[0].Hole != nil && s.P[0].Hole.A.Kind == "Ident" && len(s.P[0].Hole.Tr) == 0 && pre != "" {
+			if r := rune(pre[0]); r < 'A' || r > 'Z' {
+				return s
+			}
+		}
+		if m.Decide("hasprefix:"+strKey(s)+":"+pre, 2, "prefix of a symbolic string") == 1 {
+			return s.MapHoles("trimprefix:"+pre, func(x string) string { return x })
+		}
+		return s
 	}
 	e["strings.IndexRune"] = func(m *Machine, a []Value) Value {
 		s := strArg(m, a[0])
@@ -522,6 +539,10 @@ func externals() map[string]ExtFn {
 		}
 		return Cat(parts...)
 	}
+	e["go/format.Source"] = func(m *Machine, a []Value) Value {
+		// gofmt is modelled as the identity on text that parses; whether the text parses is decided by A-SYN on the skeleton
+		return Tuple{a[0], Iface{}}
+	}
 	e["reflect.ValueOf"] = func(m *Machine, a []Value) Value { return ReflectVal{a[0]} }
 	e["(reflect.Value).Kind"] = func(m *Machine, a []Value) Value {
 		rv := a[0].(ReflectVal)
@@ -668,7 +689,41 @@ func (m *Machine) deepEqual(x, y Value, seen map[[2]*Value]bool) bool {
 
 // ---- fmt --------------------------------------------------------------------------
 
+// fmtSite names the innermost module frame outside the Emitter: the place where
+// text is being formatted.
+func (m *Machine) fmtSite() (fn, pos string) {
+	for i := len(m.stack) - 1; i >= 0; i-- {
+		f := m.stack[i]
+		if !m.P.InModule(f.fn) {
+			continue
+		}
+		name := m.P.FuncName(f.fn)
+		if strings.Contains(name, "codegen.Emitter).") {
+			continue
+		}
+		return name, m.P.Pos(f.pos)
+	}
+	return "?", "?"
+}
+
+func (m *Machine) tagSite(s Str, format string, arg int) Str {
+	fn, pos := m.fmtSite()
+	out := make([]Piece, len(s.P))
+	for i, p := range s.P {
+		if p.Hole != nil && p.Hole.Site == "" {
+			h := *p.Hole
+			h.Site = fn + " :: " + strconv.Quote(format) + fmt.Sprintf(" arg%d", arg)
+			h.SitePos = pos
+			out[i] = Piece{Hole: &h}
+		} else {
+			out[i] = p
+		}
+	}
+	return Str{P: out}
+}
+
 func (m *Machine) sprintf(format Str, args []Value) Str {
+	fmtText := format.Debug()
 	if format.HasHole() {
 		m.event("symbolic-format", "schema-controlled text is used as a printf format string: "+format.Debug())
 	}
@@ -711,7 +766,7 @@ func (m *Machine) sprintf(format Str, args []Value) Str {
 				m.event("format-missing-arg", "format "+strconv.Quote(f)+" has more verbs than arguments")
 				continue
 			}
-			out = append(out, m.formatVerb(verb, flags, args[argi]))
+			out = append(out, m.tagSite(m.formatVerb(verb, flags, args[argi]), fmtText, argi))
 			argi++
 		}
 	}
